@@ -314,7 +314,7 @@ impl<'a> CompilerState<'a> {
         let subscript = match p.next() {
             Some(pair) => {
                 let start = pair.as_span().start();
-                let expr = self.parse_expr_ex(pair.into_inner())?;
+                let expr = self.parse_expr_ex(pair.into_inner(), self.literal_counter)?;
                 if !expr.1.is_empty() {
                     // The literals met here would never be declared
                     return Err(self.syntax_error("String literal not allowed in a subscript", start));
@@ -372,7 +372,7 @@ impl<'a> CompilerState<'a> {
     }
 
     fn parse_expr(&mut self, pairs: Pairs<'a, Rule>) -> Result<Expr, Error> {
-        let res = self.parse_expr_ex(pairs)?;
+        let res = self.parse_expr_ex(pairs, self.literal_counter)?;
 
         // Create collected literal variables in memory
         self.literal_counter += res.1.len();
@@ -406,11 +406,14 @@ impl<'a> CompilerState<'a> {
         Ok(res.0)
     }
 
+    // first_literal: number of the first string literal met in this (sub)expression; literals of
+    // sub-expressions parsed earlier in the same statement have taken the numbers before it
     fn parse_expr_ex(
         &self,
         pairs: Pairs<'a, Rule>,
+        first_literal: usize,
     ) -> Result<(Expr, Vec<(String, String)>), Error> {
-        let literal_counter = Rc::new(Mutex::new(self.literal_counter));
+        let literal_counter = Rc::new(Mutex::new(first_literal));
         let literal_strings = Rc::new(Mutex::new(Vec::<(String, String)>::new()));
         if pairs.len() == 0 {
             let lit_strs = Rc::into_inner(literal_strings)
@@ -427,7 +430,8 @@ impl<'a> CompilerState<'a> {
                         self.parse_int(primary.into_inner().next().unwrap())?,
                     )),
                     Rule::expr => {
-                        let res = self.parse_expr_ex(primary.into_inner())?;
+                        let first = *literal_counter.lock().unwrap();
+                        let res = self.parse_expr_ex(primary.into_inner(), first)?;
                         let mut lit_strs = literal_strings.lock().unwrap();
                         for k in &res.1 {
                             lit_strs.push((k.0.clone(), k.1.clone()));
@@ -510,7 +514,8 @@ impl<'a> CompilerState<'a> {
                 Rule::pp => Ok(Expr::PlusPlus(Box::new(lhs?), true)),
                 Rule::call => {
                     let params = if let Some(x) = op.into_inner().next() {
-                        let res = self.parse_expr_ex(x.into_inner())?;
+                        let first = *literal_counter.lock().unwrap();
+                        let res = self.parse_expr_ex(x.into_inner(), first)?;
                         let mut lit_strs = literal_strings.lock().unwrap();
                         for k in &res.1 {
                             lit_strs.push((k.0.clone(), k.1.clone()));
@@ -585,7 +590,8 @@ impl<'a> CompilerState<'a> {
                         self.parse_int(primary.into_inner().next().unwrap())?,
                     )),
                     Rule::expr => {
-                        let res = self.parse_expr_ex(primary.into_inner())?;
+                        let first = *literal_counter.lock().unwrap();
+                        let res = self.parse_expr_ex(primary.into_inner(), first)?;
                         let mut lit_strs = literal_strings.lock().unwrap();
                         for k in &res.1 {
                             lit_strs.push((k.0.clone(), k.1.clone()));
@@ -667,7 +673,8 @@ impl<'a> CompilerState<'a> {
                 Rule::pp => Ok(Expr::PlusPlus(Box::new(lhs?), true)),
                 Rule::call => {
                     let params = if let Some(x) = op.into_inner().next() {
-                        let res = self.parse_expr_ex(x.into_inner())?;
+                        let first = *literal_counter.lock().unwrap();
+                        let res = self.parse_expr_ex(x.into_inner(), first)?;
                         let mut lit_strs = literal_strings.lock().unwrap();
                         for k in &res.1 {
                             lit_strs.push((k.0.clone(), k.1.clone()));
